@@ -28,7 +28,7 @@ if op.startswith("list-"):
     x["l"] = [1, 2]
     lst = x["l"]
     at.clear()
-READS = {"list-contains": lambda: 1 in lst, "list-getitem": lambda: lst[0], "list-index": lambda: lst.index(2),
+READS = {"list-contains": lambda: 1 in lst, "list-getitem": lambda: lst[0], "list-index": lambda: lst.index(2), "list-count": lambda: lst.count(2),
          "getitem": lambda: x["a"], "get": lambda: x.get("a"), "len": lambda: len(x), "iter": lambda: list(x),
          "call": lambda: x(), "eq": lambda: x == {}, "keys": lambda: list(x.keys()), "values": lambda: list(x.values()),
          "items": lambda: list(x.items()), "contains": lambda: "a" in x, "repr": lambda: repr(x), "str": lambda: str(x)}
